@@ -13,6 +13,7 @@
   re-parses every correspondence case with more fuel and reports any difference (see DESIGN.md).
 -/
 import RevalModel.Lemmas.RoundTrip
+import RevalModel.Lemmas.ParseComplete
 
 namespace Reval.C07
 open Reval.G
@@ -24,6 +25,26 @@ def ParsesTo (o : Oracle) (T : List Tok) (e : Expr) : Prop := ∃ f0, ∀ f, f0 
     table (minimal, full or any redundant parenthesisation), the parser accepts `T` and returns `e` -/
 theorem renderings_parse_back (o : Oracle) (e : Expr) (T : List Tok) (h : R o 0 e T) :
     ParsesTo o T e := parse_render h
+
+/-- **only derivations are accepted**: if the parser, at any fuel, consumes all of `T` and returns `e`, then `T` is a
+    rendering of `e` under the table -/
+theorem accepted_is_derived (o : Oracle) (f : Nat) (e : Expr) (T : List Tok) (h : pIf o f T = .ok e []) : R o 0 e T :=
+  parse_sound h
+
+/-- **a token sequence is accepted exactly when the table grammar derives it, with that tree** -/
+theorem accepted_iff_derived (o : Oracle) (e : Expr) (T : List Tok) : (∃ f, pIf o f T = .ok e []) ↔ R o 0 e T := by
+  constructor
+  · intro ⟨f, h⟩; exact parse_sound h
+  · intro h; obtain ⟨f0, p⟩ := parse_render h; exact ⟨f0, p f0 (Nat.le_refl _)⟩
+
+/-- what `parseToks` (the parser with its own fuel) returns is derived by the table, and acceptance at one fuel is
+    acceptance with the same tree at every larger one -/
+theorem parseToks_is_derived (o : Oracle) (e : Expr) (T : List Tok) (h : parseToks o T = .ok e []) :
+    R o 0 e T ∧ ParsesTo o T e := by
+  have h' : pIf o (parseFuel T) T = .ok e [] := by
+    unfold parseToks at h
+    split at h <;> first | exact (by simp_all) | cases h
+  exact ⟨parse_sound h', parse_render (parse_sound h')⟩
 
 /-- **unique derivation**: a token list renders at most one tree -/
 theorem derivation_unique (o : Oracle) (e1 e2 : Expr) (T : List Tok)
